@@ -623,6 +623,7 @@ func (g *gen) doLoopHead(ci *cfgInfo, h *ssa.BasicBlock, conds []string, preds [
 }
 
 type loopHead struct {
+	edges int
 	k    int
 	spec *LoopSpec
 	phis []*ssa.Phi
@@ -748,6 +749,11 @@ func (g *gen) doBackEdge(ci *cfgInfo, from, h *ssa.BasicBlock, cond string) {
 	if lh == nil {
 		return
 	}
+	lh.edges++
+	sfx := ""
+	if lh.edges > 1 {
+		sfx = fmt.Sprintf("@edge%d", lh.edges)
+	}
 	idx := -1
 	for i, p := range h.Preds {
 		if p == from {
@@ -763,11 +769,11 @@ func (g *gen) doBackEdge(ci *cfgInfo, from, h *ssa.BasicBlock, cond string) {
 	e := g.loopEnv(h, phiVals, g.cur)
 	if lh.spec != nil {
 		for j, inv := range lh.spec.Invariants {
-			g.oblige("loop.preserve", fmt.Sprintf("loop%d.preserve[%d]", lh.k, j+1), inv.Text, g.specBool(e, inv), from.Instrs[len(from.Instrs)-1].Pos())
+			g.oblige("loop.preserve", fmt.Sprintf("loop%d.preserve[%d]%s", lh.k, j+1, sfx), inv.Text, g.specBool(e, inv), from.Instrs[len(from.Instrs)-1].Pos())
 		}
 	}
 	for j, inv := range g.autoInvariants() {
-		g.oblige("loop.preserve", fmt.Sprintf("loop%d.auto[%d]", lh.k, j+1), inv, g.specBoolText(e, inv), from.Instrs[len(from.Instrs)-1].Pos())
+		g.oblige("loop.preserve", fmt.Sprintf("loop%d.auto[%d]%s", lh.k, j+1, sfx), inv, g.specBoolText(e, inv), from.Instrs[len(from.Instrs)-1].Pos())
 	}
 	g.curReach = saved
 }
